@@ -433,6 +433,34 @@ func pathD(v ssa.Value, d int) string {
 	case *ssa.Convert:
 		return "conv(" + pathD(x.X, d+1) + ")"
 	case *ssa.Phi:
+		// a hoisted load that is only defined on some paths (phi of a zero constant and one value) names that value
+		uniq := ""
+		n := 0
+		for _, e := range x.Edges {
+			if cst, ok := e.(*ssa.Const); ok {
+				if cst.Value == nil {
+					continue
+				}
+				if z, ok := constInt(cst); ok && z == 0 {
+					continue
+				}
+			}
+			if e == ssa.Value(x) {
+				continue
+			}
+			if _, isPhi := e.(*ssa.Phi); isPhi {
+				n = 99
+				break
+			}
+			p := pathD(e, d+1)
+			if p != uniq {
+				uniq = p
+				n++
+			}
+		}
+		if n == 1 && d < 10 && !strings.HasPrefix(uniq, "φ") && strings.Contains(uniq, ".") {
+			return uniq
+		}
 		if x.Comment != "" {
 			return "φ" + x.Comment
 		}
@@ -745,4 +773,87 @@ func (c *Ctx) reachableFrom(roots []*ssa.Function, skipEdge func(e *callgraph.Ed
 		}
 	}
 	return seen
+}
+
+// relOf normalises a comparison that is known to hold (cond with truth) into (lhs, op, rhs) with op in {<, <=, ==, !=},
+// operands described by describe(). ok is false for non-comparisons.
+func relOf(cond ssa.Value, truth bool, describe func(ssa.Value) string) (lhs, op, rhs string, ok bool) {
+	bo, isB := cond.(*ssa.BinOp)
+	if !isB {
+		return "", "", "", false
+	}
+	o := bo.Op
+	if !truth {
+		switch o {
+		case token.LSS:
+			o = token.GEQ
+		case token.LEQ:
+			o = token.GTR
+		case token.GTR:
+			o = token.LEQ
+		case token.GEQ:
+			o = token.LSS
+		case token.EQL:
+			o = token.NEQ
+		case token.NEQ:
+			o = token.EQL
+		default:
+			return "", "", "", false
+		}
+	}
+	x, y := describe(bo.X), describe(bo.Y)
+	switch o {
+	case token.LSS:
+		return x, "<", y, true
+	case token.LEQ:
+		return x, "<=", y, true
+	case token.GTR:
+		return y, "<", x, true
+	case token.GEQ:
+		return y, "<=", x, true
+	case token.EQL:
+		if x > y {
+			x, y = y, x
+		}
+		return x, "==", y, true
+	case token.NEQ:
+		if x > y {
+			x, y = y, x
+		}
+		return x, "!=", y, true
+	}
+	return "", "", "", false
+}
+
+// holdsAt reports whether relation (lhs op rhs), op in {<,<=,==,!=}, is established by a dominating branch of block b.
+// For integers `a < b` also satisfies a request for `a <= b`, and `c <= a` with constant... (only syntactic variants are handled).
+func holdsAt(b *ssa.BasicBlock, lhs, op, rhs string, describe func(ssa.Value) string) bool {
+	for _, cd := range domConds(b) {
+		l, o, r, ok := relOf(cd.V, cd.Truth, describe)
+		if !ok {
+			continue
+		}
+		if o == "==" || o == "!=" {
+			if op == o && (l == lhs && r == rhs || l == rhs && r == lhs) {
+				return true
+			}
+			continue
+		}
+		if l == lhs && r == rhs && (o == op || o == "<" && op == "<=") {
+			return true
+		}
+	}
+	return false
+}
+
+// descInt describes an integer operand for relOf: constants by value, everything else by access path (conversions stripped).
+func descInt(v ssa.Value) string {
+	v = stripConv(v)
+	if n, ok := constInt(v); ok {
+		return fmt.Sprint(n)
+	}
+	if c, ok := v.(*ssa.Call); ok && isBuiltin(c, "len") {
+		return "len(" + path(c.Call.Args[0]) + ")"
+	}
+	return path(v)
 }
